@@ -4,7 +4,8 @@ Simulated dimension: queries are issued in the middle of seeded placement / move
 (the world reference of C08 is reused), so agents moved or removed since placement are covered by
 construction; the query geometry itself is generated input on a coarse lattice so that agents on box
 faces, coincident agents and seam-crossing boxes are frequent."""
-from ECAgent.Core import Agent, Model
+from ECAgent.Core import Agent, Component, Model
+from ECAgent.Environments import PositionComponent
 
 from .worlds import RefWorld, gen_world, get_pos, make_world
 
@@ -17,11 +18,11 @@ RULE = ("continuous and grid worlds, wrapping and not; 0-8 agents on a coarse la
         "equal, one larger than the other}; non-trivial = >=3 agents, >=1 agent exactly on a face of the box and >=1 "
         "agent moved since placement; distinct = (kind, wrap, per query: population, answer size, on-face count, "
         "seam-crossing flag, leeway relation)"
-        "; also: continuous extents in (0,1), rejected duplicate placements between queries, wrap_env reassigned, worlds that are not model.environment, model lifecycle ops")
+        "; also: continuous extents in (0,1), rejected duplicate placements between queries, wrap_env reassigned, worlds that are not model.environment, model lifecycle ops, agents carrying own components incl. a PositionComponent subclass with another location")
 COMPONENTS = {"real": ["ECAgent.Environments.SpaceWorld.get_agents_at", "add_agent / move / move_to / remove_agent"],
               "stub": ["agents are plain ECAgent agents created by the harness"]}
 PROBES = ["axis_leeway_larger", "general_leeway_larger", "negative_leeway", "empty_answer", "coincident_agents",
-          "query_outside_world", "seam_crossing_box", "agent_on_face", "wrap_world", "moved_since_placement", "rejected_duplicate_add", "model_lifecycle_op", "wrap_mode_switched"]
+          "query_outside_world", "seam_crossing_box", "agent_on_face", "wrap_world", "moved_since_placement", "rejected_duplicate_add", "model_lifecycle_op", "wrap_mode_switched", "agent_with_position_subclass_component"]
 TECHNIQUE = "deterministic simulation: positional queries inside seeded move/remove histories vs an exact geometric filter (seam-aware in wrapping worlds)"
 LEVEL_TEXT = ("Seeded search over placements, move histories and query boxes; every answer must equal, as an ordered id list, an "
               "exact geometric filter over the reference positions (distance around the seam in wrapping worlds); the query "
@@ -47,6 +48,14 @@ def gen_leeways(rng, ref):
     for _ in range(3):
         out.append(rng.choice([0, 0, g, g + step, max(g - step, 0), -step, 4 * step, step]))
     return out
+
+
+class Note(Component):
+    pass
+
+
+class HomePosition(PositionComponent):
+    """Another location kept by the agent (components are keyed by their exact class: this is not the agent's position)."""
 
 
 def generate(rng, tier):
@@ -76,7 +85,13 @@ def generate(rng, tier):
             ops.append({"op": "add", "k": rng.randrange(n), "p": [lattice(rng, ref, ax, 0) for ax in range(3)]})
             if rng.random() < 0.5:
                 ops.append({"op": "move", "k": ops[-1]["k"], "d": [rng.randint(-2, 2) * step for _ in range(3)]})
-    return {"world": world, "n": n, "ops": ops}
+    extras = []
+    if rng.random() < 0.3:      # agents that carry components of their own before they are placed - among them a SUBCLASS of
+        for k in range(n):      # PositionComponent holding some other location (a "home"), which is not the agent's position
+            if rng.random() < 0.5:
+                extras.append({"k": k, "what": rng.choice(["home", "home", "note", "note+home", "home+note"]),
+                               "h": [lattice(rng, ref, ax, 0) for ax in range(3)]})
+    return {"world": world, "n": n, "ops": ops, "extras": extras}
 
 
 def execute(sc, ctx):
@@ -85,6 +100,15 @@ def execute(sc, ctx):
     env = make_world(m, sc["world"])
     n = int(sc["n"])
     agents = [Agent(f"a{i}", m) for i in range(max(n, 1))]
+    for ex in sc.get("extras", []):
+        a_ = agents[ex["k"] % len(agents)]
+        for what in ex["what"].split("+"):
+            if what == "note" and Note not in a_.components:
+                a_.add_component(Note(a_, m))
+            elif what == "home" and HomePosition not in a_.components:
+                h = ref.real([int(c) for c in ex["h"]])
+                a_.add_component(HomePosition(a_, m, h[0], h[1], h[2]))
+                ctx.probe("agent_with_position_subclass_component")
     pos = {}      # joining order preserved (dict)
     moved = set()
     shape = []
